@@ -56,7 +56,13 @@ META = dict(
          "extra fields, non-JSON field types), dataclasses, containers of them, plain types or nothing; the caller passes instances "
          "with fields left unset, dicts, lists, primitives - positionally, by keyword, omitted, through *rest / **extra - and the "
          "function records the canonical form of what it received on every attempt (oracle: every attempt receives what the "
-         "first one received, and the first one what was sent)",
+         "first one received, and the first one what was sent). "
+         "About 260 cases (7 %) of a quick run send the attempts through taskiq's real InMemoryBroker in its default mode (kick spawns "
+         "Receiver.callback as a task; the retry middleware re-sends from inside the failing attempt) instead of the scripted "
+         "one-after-the-other broker: coroutine-function bodies without a suspension point, bodies that really await (sleep(0), "
+         "timer, future), pool-thread functions, every other task-function shape / failure kind, broker options, bystander tasks, "
+         "most of them with no_result_on_retry off; there 'the final attempt's outcome is the stored result' is judged on what the "
+         "real InmemoryResultBackend holds for the task id once all spawned work has settled",
     trusted_base=["model: coq/theories/Retry.v + Labels.v + Base64.v (hand-written transcription of retry_middleware.on_error, the "
                   "NoResultError test in Receiver.callback, kicker re-send)",
                   "CPython str(float)/float(str) round trip (Section hypothesis float_roundtrip)",
@@ -67,7 +73,10 @@ META = dict(
                   "building blocks of retry_driver.py (task function shapes, bystander middlewares, listen-session wrapper) and "
                   "harness/cli_glue.py (real WorkerArgs.from_cli + start_listen with its imports replaced); the exception "
                   "builder of retry_driver.py (specs -> exception objects, ChildBackend / DropBroker for sub-tasks that never "
-                  "finish, the module global `time` of taskiq.task / taskiq.funcs bound to the virtual clock)"],
+                  "finish, the module global `time` of taskiq.task / taskiq.funcs bound to the virtual clock); the in-memory "
+                  "path of retry_driver.py (InMemScenario: subclass of InMemoryBroker whose kick notes the sender and calls the "
+                  "real kick, recording subclass of InmemoryResultBackend, attribution of events to deliveries by a context "
+                  "variable set around the real Receiver.callback / the message handed to the real run_task, the settle loop)"],
     assumptions=["label keys are distinct (Python dict); the labels the message is sent with hold values of the five primitive "
                  "types; max_retries and _retries, when present, are int / bool / [+-]digits str (otherwise int() raises: model "
                  "answer DCrash, compared by the correspondence, outside the theorems)"],
@@ -353,6 +362,168 @@ def exc_grid():
     return out
 
 
+# ------------------------------------------------------------------ the attempts travel through the real InMemoryBroker
+# (retry_driver's env["broker"] = "inmem").  The scripted broker delivers one message after the other; taskiq's own
+# InMemoryBroker (default mode, await_inplace=False) spawns Receiver.callback for a message the moment it is kicked - and the
+# retry middleware kicks the next attempt from INSIDE the failing attempt's run_task, before that attempt has saved its result.
+# Which attempt's set_result comes last decides what the backend holds in the end: "the final attempt's outcome is the stored
+# result" is judged there on what the real InmemoryResultBackend holds for the task id when all spawned work has settled.
+PAUSES = ["sleep0", "sleep0", "sleep0x3", "timer", "future"]
+# Two shapes on this path are KNOWN FINDINGS on the unchanged tree (known_findings.json; replays corpus/C11/known/d17.., d18..),
+# generated at a small rate so that their neighbourhood stays explored; a failure is explained by them only if it has EXACTLY
+# the shape (known_shape below):
+#   D17 inplace_nested_attempts_first_error_stored   InMemoryBroker(await_inplace=True), no_result_on_retry off: the attempts nest
+#                                                    inside on_error, set_result calls in reverse order, the first error is held
+#   D18 resent_attempt_overtakes_failing_attempt     default mode, a middleware AFTER the retry middleware whose on_error really
+#                                                    suspends, no_result_on_retry off: the re-sent attempt saves before the failing one
+SUSPENDING_ON_ERROR = ("async_err",)       # the MW_KINDS whose on_error really suspends (retry_driver.MwAsyncErr: await sleep(0))
+INPLACE_SHARE = .1
+D17, D18 = "inplace_nested_attempts_first_error_stored", "resent_attempt_overtakes_failing_attempt"
+HELD_WHAT = ("the result the backend holds for the task id when everything has settled is not the final attempt's outcome "
+             "(an earlier attempt's set_result came after the final attempt's)")
+
+
+def crash_free(case):
+    """pure data: neither max_retries nor _retries makes int() raise inside on_error (an exception that leaves on_error unwinds
+    through every nested attempt when the broker awaits in place - outside the statement and outside the model)"""
+    for name in ("max_retries", "_retries"):
+        v = lab(case, name)
+        if v is not None and v["t"] == "str":
+            try:
+                int(kstr(v["v"]))
+            except ValueError:
+                return False
+        elif v is not None and v["t"] not in ("int", "bool"):
+            return False
+    return True
+
+
+def known_shape(case, what, observed):
+    """the signature of the known finding a failure has EXACTLY the shape of, else None"""
+    env = case.get("env") or {}
+    if what != HELD_WHAT or env.get("broker") != "inmem" or case["mw"]["nror"] or not isinstance(observed, dict):
+        return None
+    order, frm = observed.get("set_result_order"), observed.get("held_result_saved_by_attempt")
+    if not observed.get("held") or not frm or not isinstance(order, list) or len(order) < 2 or len(set(order)) != len(order) \
+            or any(not isinstance(i, int) or i < 0 for i in order + frm):
+        return None
+    final = max(order)
+    if not all(i < final for i in frm):         # the backend holds an EARLIER attempt's result
+        return None
+    if env.get("inplace"):
+        # nested: every attempt's call comes after the calls of all later attempts
+        return D17 if order == sorted(order, reverse=True) else None
+    if any(k in SUSPENDING_ON_ERROR for k in env.get("mw_after", [])):
+        # some re-sent attempt's call comes BEFORE the call of the failing attempt that re-sent it
+        pos = {a: i for i, a in enumerate(order)}
+        return D18 if any(a + 1 in pos and pos[a + 1] < pos[a] for a in order) else None
+    return None
+
+
+def is_known_shape(sig):
+    return lambda f: known_shape(f["case"], f["what"], f.get("observed")) == sig and f.get("sig", {}).get("kind") == sig
+
+
+def gen_inmem_env(r):
+    env = {"broker": "inmem"}
+    fn = r.choice(["async"] * 5 + ["sync", "sync", "agen_dep", "gen_dep", "sync_gen_dep", "dep_fails"])
+    if fn != "async":
+        env["fn"] = fn
+    can_await = fn not in ("sync", "sync_gen_dep")
+    if can_await and r.random() < .35:
+        env["pause"] = r.choice(PAUSES)             # a body that really awaits; otherwise it finishes without a suspension
+    k = r.random()
+    if k < .12:
+        env["fail_by"] = "falsy"
+    elif k < .24 and can_await:
+        env["fail_by"] = "timeout"
+        env["timeout_label"] = r.choice(TIMEOUT_VALUES)
+    elif k < .3:
+        env["timeout_label"] = r.choice(TIMEOUT_VALUES)
+    elif k < .5:
+        env["fail_by"] = "exc"
+        env["exc"] = gen_exc_list(r)
+    if r.random() < .15:
+        env["nr"] = gen_nr(r)
+    if r.random() < .3:
+        env["propagate"] = False
+    if r.random() < .2:
+        env["validate"] = False
+    if r.random() < .3:
+        env["A"] = r.choice([1, 2, 10, 0])
+    if r.random() < .3:
+        env["pool"] = r.choice([1, 2])
+    if r.random() < .4:
+        env["startup"] = True
+    if r.random() < .35:
+        env["bystanders"] = r.choice([1, 2, 3])
+    elif r.random() < .4:
+        env["stored"] = r.choice([-1, 1, 2])       # max_stored_results (never together with bystanders: they would evict)
+    if r.random() < .4:
+        for pos, kinds in (("mw_before", MW_BEFORE_RETRY), ("mw_mid", MW_BEFORE_RETRY), ("mw_after", MW_ANY)):     # (D18 lives in mw_after)
+            n = r.choice([0, 0, 1, 1, 2])
+            if n:
+                env[pos] = [r.choice(kinds) for _ in range(n)]
+    if r.random() < .2:
+        env["retry_cls"] = "sub"
+    return env
+
+
+def gen_inmem_case(r):
+    c = gen_case(r)
+    if r.random() < .7:
+        # make sure the retry loop has something to do: enabled, a few failures first, room for them
+        c["labels"] = [kv for kv in c["labels"] if kstr(kv[0]) not in ("retry_on_error", "_retries")]
+        c["mw"]["label"] = True
+        if len(c["outs"]) == 1 and r.random() < .6:
+            c["outs"] = ["F"] * r.choice([1, 2, 3]) + c["outs"]
+        if r.random() < .5:
+            c["labels"] = [kv for kv in c["labels"] if kstr(kv[0]) != "max_retries"]
+            c["mw"]["count"] = r.choice([2, 3, 4, 6])
+    if r.random() < .65:
+        c["mw"]["nror"] = False                     # every attempt stores a result: the ORDER of the set_result calls matters
+    env = gen_inmem_env(r)
+    if r.random() < INPLACE_SHARE and crash_free(c):
+        env["inplace"] = True                       # InMemoryBroker(await_inplace=True): kick awaits the callback (D17 lives here)
+    return with_env(c, env)
+
+
+def inmem_grid():
+    """every single deviation of the in-memory path on the fail-fail-success situation with every attempt storing its result
+    and on one of four other situations - always run"""
+    def mk(outs, labels, count, label, nror):
+        return dict(ser="json", mw=dict(count=count, label=label, nror=nror), labels=labels, outs=outs, args=[1, "x"],
+                    kwargs={"kw": "v"}, guard=30)
+    on = [[K("max_retries"), {"t": "int", "v": "3"}], [K("retry_on_error"), {"t": "bool", "v": True}]]
+    ffs_all = mk(["F", "F", "S"], on, 2, False, False)
+    others = [mk(["F"], [[K("u"), {"t": "str", "v": K("user")}]], 4, True, False),
+              mk(["F", "S"], [[K("max_retries"), {"t": "str", "v": K("5")}], [K("retry_on_error"), {"t": "str", "v": K("True")}]], 1, False, False),
+              mk(["F", "F", "S"], on, 2, False, True),
+              mk(["F", "N"], on, 2, False, False)]
+    cancelled = {"k": "real", "how": "cancelled_task"}
+    envs = [{}] + [{"pause": p} for p in sorted(set(PAUSES))] + [{"fn": f} for f in FN_KINDS]
+    envs += [{"fn": "gen_dep", "pause": "sleep0"}, {"fn": "dep_fails", "pause": "timer"}, {"fn": "sync", "pool": 1},
+             {"fail_by": "falsy"}, {"fail_by": "timeout", "timeout_label": TIMEOUT_VALUES[0]},
+             {"fail_by": "timeout", "timeout_label": TIMEOUT_VALUES[1], "pause": "future"},
+             {"fail_by": "exc", "exc": [{"k": "real", "how": "gather"}]}, {"fail_by": "exc", "exc": [{"k": "real", "how": "wait_result_sent"}]},
+             {"fail_by": "exc", "exc": [cancelled]}, {"fail_by": "exc", "exc": [{"k": "builtin", "name": "KeyboardInterrupt"}], "fn": "sync"},
+             {"fail_by": "exc", "exc": [{"k": "builtin", "name": "KeyError"}, cancelled], "pause": "sleep0"},
+             {"propagate": False}, {"validate": False}, {"A": 1}, {"A": 0}, {"stored": 1}, {"stored": -1}, {"startup": True},
+             {"bystanders": 2}, {"bystanders": 3, "startup": True, "pause": "timer"},
+             {"mw_before": ["async_err"]}, {"mw_mid": ["async_err", "subst"]}, {"mw_after": ["touch"]}, {"mw_after": ["hooks", "sync_err"]},
+             {"mw_before": ["copy"], "mw_after": ["post_save_raises"], "retry_cls": "sub"}, {"retry_cls": "sub"},
+             {"nr": {"k": "nr_sub"}},
+             # the two known shapes and their neighbours
+             {"inplace": True}, {"inplace": True, "pause": "sleep0"}, {"inplace": True, "fn": "sync"},
+             {"inplace": True, "mw_after": ["async_err"]}, {"mw_after": ["async_err"]}, {"mw_after": ["async_err"], "pause": "timer"},
+             {"mw_after": ["async_err", "touch"], "fn": "sync"}, {"mw_after": ["async_err"], "bystanders": 2}]
+    out = []
+    for i, e in enumerate(envs):
+        for b in (ffs_all, others[i % len(others)]):
+            out.append(with_env(dict(b, ser="pickle" if i % 6 == 5 else "json"), dict(e, broker="inmem")))
+    return out
+
+
 def with_env(case, env):
     """attach env to a copy of case; a failure by timeout needs the task's `timeout` label"""
     case = dict(case, labels=list(case["labels"]), env=env)
@@ -450,6 +621,10 @@ def gen_typed_case(r):
             c["outs"] = ["F"] * r.choice([1, 2, 3]) + c["outs"]
     k = r.random()
     env = gen_env(r) if k < .35 else {"validate": False} if k < .45 else {}
+    if r.random() < .08:
+        env = gen_inmem_env(r)                      # the attempts travel through the real InMemoryBroker
+        if r.random() < .6:
+            c["mw"]["nror"] = False
     if env.get("fn") == "dep_fails":
         env["fn"] = "gen_dep"
     if c["ser"] == "json" and r.random() < .15:
@@ -475,6 +650,9 @@ def typed_grid():
             out.append(dict(base, typed=t, env={"validate": False}))
         if i % 7 == 0:
             out.append(dict(base, typed=t, env={"fmt": "json", "fn": "sync"}))
+        if i % 9 == 0:
+            out.append(dict(base, typed=t, mw=dict(count=2, label=False, nror=i % 2 == 1),
+                            env={"broker": "inmem", **({"pause": "sleep0"} if i % 27 == 0 else {})}))
     return out
 
 
@@ -555,12 +733,17 @@ def count_env(rep, c, o):
         rep.count("env:none (default worker: Receiver.callback, propagate on, bytes message)")
         return
     rep.count("env:cases")
+    rep.count("env:broker=" + ("real InMemoryBroker (kick spawns / awaits the callback itself)" if env.get("broker") == "inmem"
+                               else "scripted (the harness delivers one kicked message after the other)"))
+    if env.get("broker") == "inmem":
+        count_inmem(rep, c, o)
     rep.count("env:configured-via=" + ("command line" if env.get("cli") is not None else "Receiver(...)"))
     rep.count("env:propagate_exceptions=%s" % env.get("propagate", True))
     rep.count("env:validate_params=%s" % env.get("validate", True))
     rep.count("env:ack_type=%s" % env.get("ack"))
     rep.count("env:message=" + ("bytes" if not env.get("ackable") else "ackable/%s-ack" % env["ackable"]))
-    rep.count("env:delivery=" + ("listen() session" if env.get("via") == "listen" else "callback"))
+    rep.count("env:delivery=" + ("InMemoryBroker.kick" if env.get("broker") == "inmem" else
+                                 "listen() session" if env.get("via") == "listen" else "callback"))
     rep.count("env:max_async_tasks=%s" % (env["A"] if "A" in env else "default"))
     rep.count("env:task-function=" + env.get("fn", "async"))
     rep.count("env:failure-by=" + env.get("fail_by", "raise"))
@@ -576,6 +759,44 @@ def count_env(rep, c, o):
     if len(o.get("execs", [])) > 1:
         rep.count("env:cases-with-a-re-send")
     count_exc(rep, c, o)
+
+
+def body_suspends(env):
+    """pure data: does the task body suspend before it acts?"""
+    if env.get("fn") in ("sync", "sync_gen_dep"):
+        return "plain function in a pool thread"
+    if env.get("pause"):
+        return "coroutine function that really awaits (%s)" % env["pause"]
+    return "coroutine function without a suspension point of its own (pure computation / immediate raise)"
+
+
+def count_inmem(rep, c, o):
+    env = c["env"]
+    st = o.get("settled") or {}
+    ex = o.get("execs", [])
+    rep.count("inmem:cases")
+    rep.count("inmem:mode=" + ("await_inplace" if env.get("inplace") else "default (callback spawned as a task by kick)"))
+    rep.count("inmem:body=" + body_suspends(env))
+    rep.count("inmem:task-function=" + env.get("fn", "async"))
+    rep.count("inmem:failure-by=" + env.get("fail_by", "raise"))
+    rep.count("inmem:no_result_on_retry=%s" % c["mw"]["nror"])
+    rep.count("inmem:set_result-calls-for-the-id=%d" % len(st.get("save_order", [])))
+    rep.count("inmem:bystander-tasks=%d" % (env.get("bystanders") or 0))
+    rep.count("inmem:startup/shutdown=%s" % bool(env.get("startup")))
+    rep.count("inmem:max_stored_results=%s" % env.get("stored", "default"))
+    rep.count("inmem:sync_tasks_pool_size=%s" % env.get("pool", "default"))
+    rep.count("inmem:typed-arguments=%s" % (c.get("typed") is not None))
+    rep.count("inmem:on_error-that-suspends-after-the-retry-middleware=%s" % any(k in SUSPENDING_ON_ERROR for k in env.get("mw_after", [])))
+    if st.get("save_order") and st["save_order"] != sorted(st["save_order"]):
+        rep.count("inmem:set_result-calls-not-in-attempt-order")
+    if st.get("held"):
+        rep.count("inmem:held-result-identified-by=" + str(st.get("by")))
+    if len(ex) > 1:
+        rep.count("inmem:cases-with-a-re-send")
+        if in_domain(c) is not None and c["outs"][min(len(ex) - 1, len(c["outs"]) - 1)] != "N":
+            rep.count("inmem:cases-with-a-re-send-whose-held-result-is-judged")
+            if not c["mw"]["nror"]:
+                rep.count("inmem:cases-with-a-re-send,every-attempt-storing,held-result-judged:body=" + body_suspends(env))
 
 
 def exc_label(sp):
@@ -713,6 +934,11 @@ def oracle(case, obs, fail):
         got = L9.canon_map({k: v for k, v in L9.as_map(e["labels"]).items() if k not in others}, drop=("_retries",))
         if got != want:
             fail("execution %d saw other user labels than the ones sent" % i, sorted(got.items()), sorted(want.items()))
+    st = obs.get("settled")
+    if "settled" in obs and (st is None or not st["quiet"] or st["pending"] or obs.get("unfinished")):
+        # (in-memory path) nothing can be read off a broker that is still working: never a silent pass
+        fail("the work spawned by the in-memory broker never settled", dict(settled=st, unfinished=obs.get("unfinished")), "all deliveries over")
+        return
     if dom is None:
         return
     enabled, m = dom
@@ -747,6 +973,12 @@ def oracle(case, obs, fail):
             if (e["stored"], e["is_err"] if e["stored"] else None) != want_st:
                 fail("the final attempt's outcome is not the stored result", dict(out=o, stored=e["stored"], is_err=e["is_err"]),
                      dict(stored=want_st[0], is_err=want_st[1]))
+            elif st is not None and o != "N" and not (st["held"] and i in st.get("held_from", [])):
+                # (in-memory path) the final attempt stored its outcome - but is that what the backend HOLDS for the task id
+                # now that everything has settled?  (no claim when the final attempt signalled no-result: it stores nothing)
+                fail(HELD_WHAT, dict(held=st["held"], held_result_saved_by_attempt=st.get("held_from"), held_is_err=st.get("held_is_err"),
+                          held_exc=st.get("held_exc"), set_result_order=st["save_order"]),
+                     dict(held_result_saved_by_attempt=[i], is_err=want_st[1]))
 
 
 # ------------------------------------------------------------------ Coq side
@@ -829,7 +1061,10 @@ def explore(ctx, rep, cases, label, shard=150):
 
         def fail(what, observed, expected, c=c):
             if len(rep.failures) - nfail < 3:
-                rep.fail(what, c, observed=observed, expected=expected, sig=dict(kind="retry"))
+                shape = known_shape(c, what, observed)
+                if shape is not None:
+                    rep.count("known-finding-shape-hit-by-a-generated-case:" + shape)
+                rep.fail(what, c, observed=observed, expected=expected, sig=dict(kind=shape or "retry"))
 
         oracle(c, o, fail)
         mr, roe = lab(c, "max_retries"), lab(c, "retry_on_error")
@@ -899,19 +1134,52 @@ def run(ctx):
     broken = explore(ctx, rep, [gen_case(r) for _ in range(ctx.n(1500, 40000))], "main") or broken
     re_ = ctx.sub_rng("env")
     exception_info(ctx, rep)
-    broken = explore(ctx, rep, env_grid() + exc_grid() + [gen_env_case(re_) for _ in range(ctx.n(400, 12000))], "env") or broken
+    ri = ctx.sub_rng("inmem")
+    broken = explore(ctx, rep, env_grid() + exc_grid() + inmem_grid() + [gen_env_case(re_) for _ in range(ctx.n(400, 12000))]
+                     + [gen_inmem_case(ri) for _ in range(ctx.n(150, 4500))], "env") or broken
     rt = ctx.sub_rng("typed")
     broken = explore(ctx, rep, typed_grid() + [gen_typed_case(rt) for _ in range(ctx.n(300, 9000))], "typed") or broken
     known_alias(ctx, rep)
-    if (broken or any(not o["ok"] for o in rep.obligations)) and not [f for f in rep.failures if not is_alias(f)]:
+    known_inmem(ctx, rep)
+    if (broken or any(not o["ok"] for o in rep.obligations)) and not [f for f in rep.failures if not is_known(f)]:
         r2 = ctx.sub_rng("search")
-        explore(ctx, rep, [gen_env_case(r2) if i % 4 == 3 else gen_typed_case(r2) if i % 4 == 1 else gen_case(r2)
-                           for i in range(ctx.n(6000, 60000))], "search")
-    return rep.finish({"alias_field_lost": is_alias})
+        explore(ctx, rep, [gen_inmem_case(r2) if i % 8 == 7 else gen_env_case(r2) if i % 4 == 3 else gen_typed_case(r2) if i % 4 == 1
+                           else gen_case(r2) for i in range(ctx.n(6000, 60000))], "search")
+    return rep.finish({"alias_field_lost": is_alias, D17: is_known_shape(D17), D18: is_known_shape(D18)})
 
 
 def is_alias(f):
     return f.get("sig", {}).get("kind") == "alias_field_lost"
+
+
+def is_known(f):
+    return is_alias(f) or is_known_shape(D17)(f) or is_known_shape(D18)(f)
+
+
+def known_inmem(ctx, rep):
+    """known findings D17 / D18 (known_findings.json): their corpus replays run on every check through the driver and the direct
+    oracle, the way D12's does.  The replay counts as the finding only if its failure has EXACTLY the finding's shape
+    (known_shape); any other failure of the replay is an ordinary failure; a replay that holds is noted as not reproducing."""
+    for sig, name in ((D17, "d17_inplace_nested_attempts"), (D18, "d18_resent_attempt_overtakes")):
+        path = os.path.join(C.VERIF, "corpus", "C11", "known", name + ".json")
+        if not os.path.exists(path):
+            continue
+        c = json.load(open(path))
+        o = C.run_driver(ctx, DRIVER, [c], nproc=1)[0]
+        rep.case(c, True)
+        rep.count("known-finding-replay:" + name)
+        if "_crash" in o:
+            rep.fail("driver crashed", c, observed=o["_crash"], sig=dict(kind="crash"))
+            continue
+        count_env(rep, c, o)
+        got = []
+        oracle(c, o, lambda what, observed, expected: got.append((what, observed, expected)))
+        rep.extra.setdefault("known_finding_replays", {})[sig] = (
+            "reproduces" if got and known_shape(c, got[0][0], got[0][1]) == sig else
+            "fails, but not with the finding's shape" if got else "does not reproduce on this tree (stale finding?)")
+        rep.count("known-finding-replay:%s:%s" % (name, "reproduces" if got else "does not reproduce"))
+        for what, observed, expected in got[:1]:
+            rep.fail(what, c, observed=observed, expected=expected, sig=dict(kind=known_shape(c, what, observed) or "retry"))
 
 
 def known_alias(ctx, rep):
@@ -951,6 +1219,10 @@ def replay(ctx, path):
         if c.get("typed") is not None:
             print("   received arguments:", json.dumps(e["args"][1] if e["args"] else e["args"], sort_keys=True)[:1500])
     print("statement domain (enabled, max_retries):", in_domain(c))
+    if "settled" in o:
+        print("in-memory broker: every delivery settled:", bool(o["settled"] and o["settled"]["quiet"]), "| set_result calls for the id, by attempt:",
+              (o["settled"] or {}).get("save_order"), "| the backend now holds:", json.dumps({k: (o["settled"] or {}).get(k) for k in
+              ("held", "held_from", "by", "held_is_err", "held_exc")}), "| body:", body_suspends(c.get("env") or {}))
     if o.get("raised_log"):
         print("exceptions raised by the attempts (chosen by the case, env['exc'] / env['nr']):",
               json.dumps([[exc_label(e["spec"]) if e["spec"].get("k") not in NR_KINDS else "no-result signal " + e["spec"]["k"],
